@@ -43,6 +43,7 @@ def _response(serve: dict) -> httpx.Response:
 def obs_serve_h(job: dict) -> Any:
     d = W.discover(job)
     out = []
+    elsewhere: set[tuple[str, str]] = set()  # methods seen to send their request to a path outside path_re: not called again
     loop = asyncio.new_event_loop()
     try:
         for serve in job["serve"]:
@@ -63,6 +64,8 @@ def obs_serve_h(job: dict) -> Any:
                 except Exception:  # noqa: BLE001
                     continue
                 for mn, fn in W._methods(type(tc)).items():
+                    if (pname, mn) in elsewhere:
+                        continue
                     hints = W._hints(fn)
                     plan = W.arg_plans(fn, hints)[0]
                     syn = W.Synth()
@@ -70,6 +73,8 @@ def obs_serve_h(job: dict) -> Any:
                     seen.clear()
                     res = loop.run_until_complete(asyncio.wait_for(W._call(getattr(tc, mn), kwargs, W._nature(fn)), 20))
                     if serve.get("path_re") and not any(re.fullmatch(serve["path_re"], s["path"]) for s in seen):
+                        if seen:
+                            elsewhere.add((pname, mn))
                         continue
                     out.append({"sid": serve["sid"], "prop": pname, "method": mn, "sent": list(seen), "outcome": res})
     finally:
